@@ -2,7 +2,26 @@
     Models: GoChannel/Reg.v (which (publication, subscription) pairs get a Sender: publish
     snapshot or persistent replay) and GoChannel/Sub.v (what one Sender does). *)
 From WM Require Import Base.Prelude Message.Model GoChannel.Sub GoChannel.SubProofs
-                       GoChannel.Reg GoChannel.RegWitness.
+                       GoChannel.Reg GoChannel.RegWitness GoChannel.RegLocks GoChannel.RegInv GoChannel.RegSend.
+
+(** THE theorem.  Persistent mode, every schedule of any number of Publish / Subscribe / cancel /
+    Close calls: a registered subscription has EXACTLY ONE Sender for every message of its topic
+    whose snapshot was taken - whether the message was published before the Subscribe (replayed
+    from the log), during it (the Publish waits behind the Subscribe's write lock + topic lock) or
+    after it (in the publish snapshot).  Never zero (none missed), never two (none doubled). *)
+Theorem C11_exactly_one_sender_per_message : forall pers blk fx ls x k p,
+  let s := grun (ginit pers blk fx) ls in
+  persistent s = true -> In x (subs s k) -> In p (sent s) -> ptopic s p = k ->
+  nsenders s p x = 1.
+Proof. exact persistent_exactly_one. Qed.
+Print Assumptions C11_exactly_one_sender_per_message.
+
+(** in any mode: at most one *)
+Theorem C11_at_most_one_sender : forall pers blk fx ls p x,
+  nsenders (grun (ginit pers blk fx) ls) p x <= 1.
+Proof. exact sender_unique. Qed.
+Print Assumptions C11_at_most_one_sender.
+
 
 (** a Sender whose subscriber always Acks delivers exactly one copy: a second copy exists only
     after a Nack of the first *)
